@@ -69,4 +69,43 @@ PROPS = {
             "a history whose final texts crash the refresh of a *fresh* server too is discarded and counted (skipped_pipeline_crash): that is C01/C04 territory",
         ],
     },
+    "C17": {
+        "level": "exploration",
+        "runs": {"quick": 1500, "thorough": 100000},
+        "selftest_runs": 600,
+        "needs_real": False,
+        "rule": (
+            "histories as in C15 (same schedule, hash-seed and edit space, no folder events) whose plan passes through renderings of generated multi-module programs; "
+            "whenever the client's buffers+disk equal such a rendering that the real compiler accepts, a semantic checkpoint sends, for every identifier occurrence "
+            "(first/middle/last character in turn), definition and references to the *history* server - half of the time while it is still stale - and checks them against the generator's own "
+            "binding table: use -> one location in the binder's module containing the binder's name inside the binder's statement; declaration name or use bound to a declaration -> exactly "
+            "the uses bound to it in all modules; every returned reference, fed back to definition, designates the binder (also for parameters and rec binders); "
+            "6 positions per module outside identifiers -> empty answers. evaluations = history + fresh-server executions; non-trivial = run with >=1 semantic checkpoint; distinct = distinct transcripts."
+        ),
+        "real": ["as C15; handlers::go_to_definition / references / find_references / syntax_at / node_location", "resolve.rs via the real compile"],
+        "stub": ["as C15", "reference model: the generator's lexical resolver and binding table (shares no code with resolve.rs/env.rs)"],
+        "assumptions": COMMON_ASSUME + [
+            "semantic oracles are as wide as the generator's fragment: unique qualifier per module, no declaration named like an unqualified import or built-in, distinct path variables, single folder",
+            "positions whose answer the statement does not fix (qualifier half of m.f, a binder's own binding occurrence, declaration names for definition, built-ins) are sent and checked for liveness only",
+        ],
+    },
+    "C18": {
+        "level": "exploration",
+        "runs": {"quick": 1500, "thorough": 100000},
+        "selftest_runs": 600,
+        "needs_real": False,
+        "rule": (
+            "histories as in C17; at each semantic checkpoint prepareRename is sent at every identifier occurrence and at blank positions; wherever a range is offered, rename to a fresh name "
+            "(same @ sigil) is sent to the history server and its WorkspaceEdit is checked: valid ranges, pairwise non-overlapping, each covering exactly the old name, and the edited sources are "
+            "compiled in-process and must be accepted and emit the same document (hash-* names canonicalised; for @references with the component name substituted back). At one occurrence per "
+            "checkpoint the loop is closed for real (edits applied to the client's buffers, sent back as didChange) and history = fresh is checked afterwards. The server must survive every request. "
+            "evaluations = history + fresh-server executions; non-trivial = run with >=1 semantic checkpoint; distinct = distinct transcripts."
+        ),
+        "real": ["as C15; handlers::prepare_rename / rename / rename_variable / rename_qualifier", "in-process pipeline for the compile-equivalence oracle"],
+        "stub": ["as C15", "reference model: binding table (used to localise failures; the verdict is compile equivalence as the statement says)"],
+        "assumptions": COMMON_ASSUME + [
+            "new names are fresh (zz_fresh<n>) and keep the @ sigil of the old name",
+            "semantic oracles are as wide as the generator's fragment",
+        ],
+    },
 }
